@@ -54,8 +54,9 @@ type accessRec struct {
 }
 
 type varInfo struct {
-	fresh bool // object created in this function (constructor / clone): accesses are pre-publication
-	copy  bool // g := *f: a shallow copy — scalar fields are private, reference-typed fields are shared with f
+	fresh  bool   // object created in this function (constructor / clone): accesses are pre-publication
+	copy   bool   // g := *f: a shallow copy — scalar fields are private, reference-typed fields are shared with f
+	prefix string // the variable denotes the nested struct field "<prefix>" of the object (receiver of an inlined method of that struct)
 }
 
 type heldSet map[string]string // lock field -> "Sh" | "Ex"; nil = unreachable (top)
@@ -120,21 +121,22 @@ func (h heldSet) render() string {
 }
 
 type lockScanner struct {
-	fset     *token.FileSet
-	typeName string
-	fields   map[string]*fieldInfo
-	order    []string
-	methods  map[string]*ast.FuncDecl
-	pkgTypes map[string]ast.Expr
-	out      []accessRec
-	seen     map[string]bool
-	notes    []string
-	spawned  []string                 // methods started with `go`
-	scanned  []string                 // functions scanned (methods of the type, constructors, functions taking it)
-	funcs    map[string]*ast.FuncDecl // plain functions of the package
-	freshMem map[*ast.FuncDecl]int    // 0 unknown, 1 computing / no, 2 yes
-	leaves   []string                 // all non-group fields, flattened
-	embLock  string                   // a mutex embedded directly in the type: v.Lock() is v.<embLock>.Lock()
+	fset        *token.FileSet
+	typeName    string
+	fields      map[string]*fieldInfo
+	order       []string
+	methods     map[string]*ast.FuncDecl
+	pkgTypes    map[string]ast.Expr
+	out         []accessRec
+	seen        map[string]bool
+	notes       []string
+	spawned     []string                            // methods started with `go`
+	scanned     []string                            // functions scanned (methods of the type, constructors, functions taking it)
+	funcs       map[string]*ast.FuncDecl            // plain functions of the package
+	freshMem    map[*ast.FuncDecl]int               // 0 unknown, 1 computing / no, 2 yes
+	leaves      []string                            // all non-group fields, flattened
+	embLock     string                              // a mutex embedded directly in the type: v.Lock() is v.<embLock>.Lock()
+	typeMethods map[string]map[string]*ast.FuncDecl // methods of the other struct types of the package (nested fields)
 }
 
 type closureArg struct {
@@ -159,6 +161,7 @@ type fnCtx struct {
 	hasRet         bool
 	closures       int                    // > 0 inside a function literal (its returns are not the function's)
 	lockAlias      map[string]string      // local mu := &v.L used only for direct Lock/Unlock calls: the lock L
+	rlocker        map[string]bool        // the alias is v.L.RLocker(): its Lock / Unlock are RLock / RUnlock of L
 	unlockFns      map[string]string      // local u := v.L.Unlock (or u := v.lock() returning it): calling u releases L
 	retUnlock      string                 // this function returns the method value v.L.Unlock / RUnlock of lock L
 	lastCallUnlock string                 // the own-method call just inlined returned the unlock of this lock
@@ -259,6 +262,9 @@ func recvTypeName(fd *ast.FuncDecl) (string, string) {
 	if ix, ok := t.(*ast.IndexExpr); ok {
 		t = ix.X
 	}
+	if ix, ok := t.(*ast.IndexListExpr); ok {
+		t = ix.X
+	}
 	id, ok := t.(*ast.Ident)
 	if !ok {
 		return "", ""
@@ -304,7 +310,14 @@ func (ls *lockScanner) addFields(prefix string, st *ast.StructType, depth int) [
 			if prefix == "" {
 				ls.order = append(ls.order, full)
 			}
-			if id, ok := f.Type.(*ast.Ident); ok && depth < 3 {
+			ft := f.Type
+			if ix, ok := ft.(*ast.IndexExpr); ok {
+				ft = ix.X
+			}
+			if ix, ok := ft.(*ast.IndexListExpr); ok {
+				ft = ix.X
+			}
+			if id, ok := ft.(*ast.Ident); ok && depth < 3 {
 				if sub, ok := ls.pkgTypes[id.Name].(*ast.StructType); ok {
 					g := &fieldInfo{kind: fkGroup, typ: id.Name, typeExpr: f.Type}
 					ls.fields[full] = g
@@ -357,7 +370,8 @@ func cmdLocks(repo, rel, typeName, mutexField string) error {
 		return err
 	}
 	ls := &lockScanner{fset: fset, typeName: typeName, fields: map[string]*fieldInfo{}, methods: map[string]*ast.FuncDecl{},
-		pkgTypes: map[string]ast.Expr{}, seen: map[string]bool{}, funcs: map[string]*ast.FuncDecl{}}
+		pkgTypes: map[string]ast.Expr{}, seen: map[string]bool{}, funcs: map[string]*ast.FuncDecl{},
+		typeMethods: map[string]map[string]*ast.FuncDecl{}}
 	var st *ast.StructType
 	for _, f := range files {
 		for _, d := range f.Decls {
@@ -397,7 +411,13 @@ func cmdLocks(repo, rel, typeName, mutexField string) error {
 			}
 			if tn, _ := recvTypeName(fd); tn == typeName {
 				ls.methods[fd.Name.Name] = fd
-			} else if fd.Recv == nil {
+			} else if tn != "" {
+				if ls.typeMethods[tn] == nil {
+					ls.typeMethods[tn] = map[string]*ast.FuncDecl{}
+				}
+				ls.typeMethods[tn][fd.Name.Name] = fd
+			}
+			if fd.Recv == nil {
 				ls.funcs[fd.Name.Name] = fd
 			}
 			funcs = append(funcs, fd)
@@ -588,10 +608,11 @@ func (ls *lockScanner) trackedField(c *fnCtx, e ast.Expr) (string, string, bool)
 			return "", "", false
 		}
 	}
-	if _, t := c.vars[id.Name]; !t {
+	vi, t := c.vars[id.Name]
+	if !t {
 		return "", "", false
 	}
-	full := strings.Join(names, ".")
+	full := vi.prefix + strings.Join(names, ".")
 	if _, f := ls.fields[full]; !f {
 		return "", "", false
 	}
@@ -988,6 +1009,21 @@ func (ls *lockScanner) scanStmt(c *fnCtx, s ast.Stmt) {
 						handled[i] = true
 						continue
 					}
+					if ce, isCall := r.(*ast.CallExpr); isCall && len(ce.Args) == 0 {
+						if se, ok := ce.Fun.(*ast.SelectorExpr); ok && se.Sel.Name == "RLocker" {
+							if _, l, ok := ls.lockRef(c, se.X); ok {
+								if c.lockAlias == nil {
+									c.lockAlias = map[string]string{}
+								}
+								if c.rlocker == nil {
+									c.rlocker = map[string]bool{}
+								}
+								c.lockAlias[id.Name], c.rlocker[id.Name] = l, true
+								handled[i] = true
+								continue
+							}
+						}
+					}
 					if l, ok := ls.unlockValue(c, r); ok {
 						// unlock := v.L.Unlock: calling it later releases L
 						if c.unlockFns == nil {
@@ -1054,6 +1090,7 @@ func (ls *lockScanner) scanStmt(c *fnCtx, s ast.Stmt) {
 					continue
 				}
 				delete(c.lockAlias, id.Name)
+				delete(c.rlocker, id.Name)
 				delete(c.unlockFns, id.Name)
 				var rhs ast.Expr
 				if len(t.Lhs) == len(t.Rhs) {
@@ -1427,7 +1464,18 @@ func (ls *lockScanner) lockOp(c *fnCtx, call *ast.CallExpr) (string, string, str
 	if !ok {
 		return "", "", "", false
 	}
-	return v, f, se.Sel.Name, true
+	op := se.Sel.Name
+	if id, isId := se.X.(*ast.Ident); isId && c.rlocker[id.Name] {
+		switch op { // rl := v.L.RLocker(): a sync.Locker whose Lock / Unlock are RLock / RUnlock
+		case "Lock":
+			op = "RLock"
+		case "Unlock":
+			op = "RUnlock"
+		default:
+			op = "?" + op
+		}
+	}
+	return v, f, op, true
 }
 
 // unlockValue: e is the method value v.L.Unlock / v.L.RUnlock (not called)
@@ -1463,15 +1511,51 @@ func (ls *lockScanner) lockAddr(c *fnCtx, e ast.Expr) (string, bool) {
 // runClosure scans a function literal of the caller that an inlined own method calls (f.update(func(){…})):
 // with the variables of where it was written and the locks held where it is called.
 func (ls *lockScanner) runClosure(ca *closureArg, held heldSet) {
+	ls.runClosureFrom(ca, held, nil, nil)
+}
+
+// runClosureFrom: called as fn(args) in ctx caller: parameters of the literal that receive the tracked object are
+// the object (func(f *T) { … } called as fn(f))
+func (ls *lockScanner) runClosureFrom(ca *closureArg, held heldSet, caller *fnCtx, args []ast.Expr) {
 	o := ca.owner
 	saved := o.held
 	o.held = held.clone()
 	if o.held == nil {
 		o.held = heldSet{}
 	}
+	shadow := map[string]*varInfo{}
+	var added []string
+	if caller != nil && ca.lit.Type.Params != nil {
+		i := 0
+		for _, p := range ca.lit.Type.Params.List {
+			for _, n := range p.Names {
+				if i < len(args) {
+					if aid, ok := args[i].(*ast.Ident); ok && caller.vars[aid.Name] != nil {
+						if old, had := o.vars[n.Name]; had {
+							shadow[n.Name] = old
+						} else {
+							added = append(added, n.Name)
+						}
+						o.vars[n.Name] = caller.vars[aid.Name]
+					}
+				}
+				i++
+			}
+		}
+		o.noPrepub += caller.noPrepub
+	}
 	o.closures++
 	ls.scanBlock(o, ca.lit.Body)
 	o.closures--
+	if caller != nil {
+		o.noPrepub -= caller.noPrepub
+	}
+	for k, v := range shadow {
+		o.vars[k] = v
+	}
+	for _, k := range added {
+		delete(o.vars, k)
+	}
 	o.held = saved
 	ca.scanned = true
 }
@@ -1551,23 +1635,42 @@ func (ls *lockScanner) inlineMethod(c *fnCtx, call *ast.CallExpr) bool {
 	if vi == nil {
 		return false
 	}
-	if _, isField := ls.fields[se.Sel.Name]; isField {
+	if _, isField := ls.fields[vi.prefix+se.Sel.Name]; isField {
 		return false
 	}
 	md := ls.methods[se.Sel.Name]
+	if vi.prefix != "" { // a nested struct: its own type's methods
+		md = nil
+		if g := ls.fields[strings.TrimSuffix(vi.prefix, ".")]; g != nil {
+			md = ls.typeMethods[g.typ][se.Sel.Name]
+		}
+	}
 	if md == nil {
 		ls.emitUnknown(c, call, "", "call of unknown method "+se.Sel.Name+" on the object")
 		return true
 	}
+	_, rn := recvTypeName(md)
+	return ls.inlineDecl(c, call, md, rn, vi)
+}
+
+// inlineFunc: a function of the package called with the object (or a pointer into it, or a function literal that
+// uses it) as an argument, e.g. insertLocked(f, nip, ones) while the lock is held
+func (ls *lockScanner) inlineFunc(c *fnCtx, call *ast.CallExpr, fd *ast.FuncDecl) bool {
+	return ls.inlineDecl(c, call, fd, "", nil)
+}
+
+func (ls *lockScanner) inlineDecl(c *fnCtx, call *ast.CallExpr, md *ast.FuncDecl, rn string, vi *varInfo) bool {
 	for _, s := range c.stack {
 		if s == md.Name.Name {
 			ls.emitUnknown(c, call, "", "recursive call of "+md.Name.Name)
 			return true
 		}
 	}
-	_, rn := recvTypeName(md)
-	sub := &fnCtx{fn: c.fn, vars: map[string]*varInfo{rn: vi}, held: c.held.clone(), published: c.published, noPrepub: c.noPrepub,
+	sub := &fnCtx{fn: c.fn, vars: map[string]*varInfo{}, held: c.held.clone(), published: c.published, noPrepub: c.noPrepub,
 		stack: append(append([]string{}, c.stack...), md.Name.Name)}
+	if vi != nil {
+		sub.vars[rn] = vi
+	}
 	if sub.held == nil {
 		sub.held = heldSet{}
 	}
@@ -1579,6 +1682,15 @@ func (ls *lockScanner) inlineMethod(c *fnCtx, call *ast.CallExpr) bool {
 				if i < len(call.Args) {
 					if aid, ok := call.Args[i].(*ast.Ident); ok && c.vars[aid.Name] != nil {
 						sub.vars[n.Name] = c.vars[aid.Name]
+					}
+					// pointers into / values of fields keep their meaning in the callee: ln := &v.lanes[i]; offerOwn(ln, t)
+					if aid, ok := call.Args[i].(*ast.Ident); ok {
+						if pf, isA := c.ptrs[aid.Name]; isA {
+							sub.setAlias(n.Name, pf[0], pf[1], c.valAlias[aid.Name])
+							if sub.vars[pf[0]] == nil && c.vars[pf[0]] != nil {
+								sub.vars[pf[0]] = c.vars[pf[0]] // the object the alias points into (for prepub / copy flags)
+							}
+						}
 					}
 				}
 				i++
@@ -1879,10 +1991,42 @@ func (ls *lockScanner) scanCall(c *fnCtx, call *ast.CallExpr) bool {
 		}
 		if ca := c.funcParams[id.Name]; ca != nil { // fn(): the caller's function literal runs here, under our locks
 			for _, a := range call.Args {
+				if aid, ok := a.(*ast.Ident); ok && c.vars[aid.Name] != nil {
+					continue // fn(f): bound to the literal's parameter
+				}
 				ls.scanArg(c, a)
 			}
-			ls.runClosure(ca, c.held)
+			ls.runClosureFrom(ca, c.held, c, call.Args)
 			return false
+		}
+		// a function of the package that is handed the object, a pointer into it or a function literal: inline
+		if fd := ls.funcs[id.Name]; fd != nil && fd.Body != nil {
+			takes := false
+			for _, a := range call.Args {
+				switch t := a.(type) {
+				case *ast.Ident:
+					if c.vars[t.Name] != nil || c.ptrs[t.Name] != [2]string{} || c.funcParams[t.Name] != nil {
+						takes = true
+					}
+				case *ast.FuncLit:
+					takes = true
+				}
+			}
+			if takes && !ls.returnsFresh(fd) {
+				for _, a := range call.Args {
+					switch t := a.(type) {
+					case *ast.FuncLit:
+						continue
+					case *ast.Ident:
+						if c.vars[t.Name] != nil || c.ptrs[t.Name] != [2]string{} || c.funcParams[t.Name] != nil {
+							continue
+						}
+					}
+					ls.scanArg(c, a)
+				}
+				ls.inlineFunc(c, call, fd)
+				return false
+			}
 		}
 	}
 	switch fun := call.Fun.(type) {
@@ -1897,6 +2041,20 @@ func (ls *lockScanner) scanCall(c *fnCtx, call *ast.CallExpr) bool {
 				if fun.Sel.Name != "Load" && !atomicWriteMethods[fun.Sel.Name] {
 					ls.emitUnknown(c, call, f, "method "+fun.Sel.Name+" of an atomic value")
 				}
+			case fi.kind == fkGroup && ls.typeMethods[fi.typ][fun.Sel.Name] != nil:
+				// v.ids.next(): a method of the nested struct, inlined with its receiver standing for v.ids
+				md := ls.typeMethods[fi.typ][fun.Sel.Name]
+				base := c.vars[v]
+				nv := &varInfo{fresh: base.fresh, copy: base.copy, prefix: f + "."}
+				for _, a := range call.Args {
+					if _, isLit := a.(*ast.FuncLit); isLit {
+						continue
+					}
+					ls.scanArg(c, a)
+				}
+				_, rn := recvTypeName(md)
+				ls.inlineDecl(c, call, md, rn, nv)
+				return false
 			case ls.methodCallOnFieldReads(fi):
 				ls.emit(c, call, v, f, false, false)
 			default:
